@@ -8,37 +8,43 @@ def verdictStr : Spec01.Verdict → String
   | .ok => "ok"
   | .fail c => s!"fail clause={c}"
 
+/-- one neighbour's verdict: the reference checker, then (not part of it) a report on histories of
+    the class the master theorem covers (with or without add-path; no LLGR period, no soft reset
+    overtaking queued changes) on which its computed hypothesis `okRun` nevertheless fails -/
+def judge (c : Case01) (ob : Obs01) (who : String) : String :=
+  match Spec01.check c ob with
+  | .ok =>
+      if Conv.noLlgr (c.pre ++ c.ops) && ob.overtaken = 0 && !Conv.okRun c
+      then s!"fail clause=theorem-hypothesis-not-met-by-model-run class=in-order{who}"
+      else "ok"
+  | .fail x => s!"fail clause={x}{who}"
+
 /-- mode `model`: case ↦ observation of the model;
     mode `oracle`: case TAB observation ↦ verdict of the C01 reference checker;
     mode `hyp`: case ↦ `t`/`f`, the computed hypothesis of the master theorem. -/
 def handler (mode : String) (line : String) : String :=
   match mode with
   | "model" =>
-      match (parse line).bind caseOf? with
-      | some c => toStr (obsT (run01 c))
+      match (parse line).bind casesOf? with
+      | some (c, c2) => toStr (pairT (run01 c) (c2.map run01))
       | none => "(bad-case)"
   | "oracle" =>
       match line.splitOn "\t" with
       | [cs, os] =>
-          match (parse cs).bind caseOf? with
-          | some c =>
-              match (parse os).bind obsOf? with
-              | some ob =>
-                  match Spec01.check c ob with
-                  | .ok =>
-                      -- not part of the reference checker: report histories of the class the master theorem
-                      -- covers (with or without add-path; no LLGR period, no soft reset overtaking queued changes) on
-                      -- which its computed hypothesis `okRun` nevertheless fails
-                      if Conv.noLlgr (c.pre ++ c.ops) && ob.overtaken = 0 && !Conv.okRun c
-                      then "fail clause=theorem-hypothesis-not-met-by-model-run class=in-order"
-                      else "ok"
-                  | v => verdictStr v
-              | none => "fail clause=unparsable-observation"
+          match (parse cs).bind casesOf? with
+          | some (c, c2) =>
+              match (parse os).bind pairOf?, c2 with
+              | some (ob, none), none => judge c ob ""
+              | some (ob, some ob2), some c2 =>
+                  match judge c ob "" with
+                  | "ok" => judge c2 ob2 ""
+                  | v => v
+              | _, _ => "fail clause=unparsable-observation"
           | none => if os == "(bad-case)" then "ok" else "fail clause=bad-case-accepted-by-harness"
       | _ => "(bad-line)"
   | "hyp" =>
-      match (parse line).bind caseOf? with
-      | some c => if Conv.okRun c then "t" else "f"
+      match (parse line).bind casesOf? with
+      | some (c, c2) => if Conv.okRun c && (match c2 with | some c2 => Conv.okRun c2 | none => true) then "t" else "f"
       | none => "(bad-case)"
   | _ => "(bad-mode)"
 
